@@ -146,8 +146,10 @@ impl UnitRunner for C18 {
     let ai = (unit % 256) as usize;
     if sp >= 9 { self.row_selection(unit - 9 * 256, out); return; }
     let (ls, rs) = (LSCHEMAS[sp / 3], RSCHEMAS[sp % 3]);
-    let lt = tables(ls, self.maxrows(), 10);
-    let rt = tables(rs, self.maxrows(), 100);
+    // schemas with at most one key column afford more rows: 3 (quick) / 5 (thorough)
+    let rows_for = |schema: &[&'static str]| if schema.iter().filter(|c| is_key(c)).count() <= 1 { self.tier.pick(3, 5) } else { self.maxrows() };
+    let lt = tables(ls, rows_for(ls), 10);
+    let rt = tables(rs, rows_for(rs), 100);
     if ai >= lt.len() { return; }
     let a = &lt[ai];
     let shared = ls.iter().filter(|c| rs.contains(c)).count();
@@ -247,7 +249,7 @@ impl Check for C18 {
   fn level(&self) -> &'static str { "exploration" }
   fn unit_budget(&self, _t: Tier) -> Duration { Duration::from_secs(120) }
   fn drive(&mut self, tier: Tier, cfg: &PoolCfg, rep: &mut Report) {
-    rep.rule = format!("9 schema pairs (lhs columns from {{k,j,a}}, rhs from {{k,j,b}}: 0, 1 or 2 shared names) x every lhs table x every rhs table with 1..{} rows (key cells over {{1,2}}, row-unique payloads, so duplicates and non-matching keys all occur) x 5 column-kind layouts (keys u64 / u8 / string / bool / f64 with payloads u64 / f64 / u64 / string / u8) x inner, left/right/full outer, left semi, left anti x symbol and word form, plus 0-row operands produced by an anti-join; \
+    rep.rule = format!("9 schema pairs (lhs columns from {{k,j,a}}, rhs from {{k,j,b}}: 0, 1 or 2 shared names) x every lhs table x every rhs table with 1..{} rows (1..3 quick / 1..5 thorough when the schema has at most one key column; key cells over {{1,2}}, row-unique payloads, so duplicates and non-matching keys all occur) x 5 column-kind layouts (keys u64 / u8 / string / bool / f64 with payloads u64 / f64 / u64 / string / u8) x inner, left/right/full outer, left semi, left anti x symbol and word form, plus 0-row operands produced by an anti-join; \
       row selection on tables of 1..{} rows by every scalar index 0..n+1, every index pair, every index vector of length 3 (and 4 for n = 4), every mask of length n-1..n+1; the reference is a nested-loop join on lists of rows compared as multisets keyed by column name incl. which columns are optional; evaluations = statements; non-trivial = judged statements", self.maxrows(), tier.pick(4, 5));
     rep.assumptions = vec!["row order of a join, column order and shared columns of different kinds are not judged".into()];
     rep.cov("bounds", json!({"schema_pairs": 9, "max_rows": self.maxrows()}));
